@@ -16,12 +16,16 @@ def cname(i):
     return 'C%d' % i
 
 
+SPECIAL = {'nan': float('nan'), 'str': 'x', 'none': None, 'half': 1.5, 'ninf': float('-inf')}
+
+
 def _dist(vals, kind, node, cls, integer=False):
+    """value lists may contain special tokens (malformed-sample stream of C10/C14): see SPECIAL"""
     if vals is None:
         return None
     if integer:
-        return Scripted([int(v) for v in vals], kind, node, cls)
-    return Scripted([fl(v) for v in vals], kind, node, cls)
+        return Scripted([(SPECIAL[v] if isinstance(v, str) else int(v)) for v in vals], kind, node, cls)
+    return Scripted([(SPECIAL[v] if isinstance(v, str) else fl(v)) for v in vals], kind, node, cls)
 
 
 class BaulkTable:
@@ -219,6 +223,9 @@ def run_cfg(cfg, max_frames=None, script_u=None, keep_sim=False):
         tr.init_cev = OBS.cev
         OBS.cev = []
         tr.init = snapshot(Q)
+        if cfg.get('hist_new'):
+            tr.hist_mark = 0
+            obs.hist_collect(Q, tr)
         if keep_sim:
             tr.Q = Q
         runs = cfg['run'] if isinstance(cfg['run'][0], list) else [cfg['run']]
@@ -241,6 +248,12 @@ def run_cfg(cfg, max_frames=None, script_u=None, keep_sim=False):
             tr.records = collect_records(Q)
         except Exception:
             tr.records = None
+    if tr.hist_mark is not None:
+        try:
+            obs.hist_collect(Q, tr)
+            tr.hist_full = [(tk(e[0]), e[1]) for e in Q.statetracker.history]
+        except Exception:
+            tr.hist_full = None
     return tr
 
 
